@@ -210,6 +210,58 @@ def rule_samebase(ctx, py):
     ctx.floor(R, 2)
 
 
+def rule_expsign(ctx, py):
+    """C18.EXPSIGN -- '/' inverts exactly the factor it precedes: in the loop that turns each block's exponent text into an
+    integer, the sign depends on that block's own separator only (no variable carried from one block to the next), and the
+    exponent is negated under `separator == "/"`."""
+    R = "C18.EXPSIGN"
+    f = py.fn("units.parse_units")
+    loops = [n for n in f.body if isinstance(n, ast.For) and isinstance(n.target, ast.Name) and any(
+        isinstance(x, ast.Assign) and pyfe.src(x.targets[0]) == "%s[2]" % n.target.id for x in ast.walk(n))]
+    ctx.need(len(loops) == 1, R, "parse_units: exponent loop not found")
+    lp = loops[0]
+    b = lp.target.id
+    # names written in the loop and read in it before an unconditional write of the same iteration
+    top_written = set()
+    carried = []
+    for st in lp.body:
+        reads = [x.id for x in ast.walk(st) if isinstance(x, ast.Name) and isinstance(x.ctx, ast.Load)]
+        writes_any = {x.id for x in ast.walk(st) if isinstance(x, ast.Name) and isinstance(x.ctx, ast.Store)}
+        all_writes = {x.id for y in lp.body for x in ast.walk(y) if isinstance(x, ast.Name) and isinstance(x.ctx, ast.Store)}
+        for r in reads:
+            if r in all_writes and r not in top_written and r != b:
+                carried.append((st, r))
+        if isinstance(st, ast.Assign):
+            for t in st.targets:
+                if isinstance(t, ast.Name):
+                    top_written.add(t.id)
+    ctx.check(not carried, R, carried[0][0] if carried else lp, f._qual, "exponent loop over the blocks", "each block decided on its own",
+              "`%s` is carried from one block to the next: a '/' also inverts the factors after the next '.', `mol/µm.s` is read as "
+              "mol.µm-1.s-1" % (carried[0][1] if carried else ""))
+    negs = []
+
+    def on(node, cfg):
+        if isinstance(node, ast.Assign) and pyfe.src(node.targets[0]) == "%s[2]" % b:
+            v = node.value
+            t = pyfe.src(v).replace(" ", "")
+            if t in ("-%s[2]" % b, "-1*%s[2]" % b, "%s[2]*-1" % b, "-int(%s[2])" % b):
+                negs.append((node, cfg))
+    from .. import pya
+    pya.must_facts(lp, on_stmt=on) if False else None
+    from .. import ir
+
+    class C(pya.PyFacts):
+        def atom(self, node, cfg):
+            if self.record:
+                on(node, cfg)
+            return super().atom(node, cfg)
+    ir.Engine(C(), "must").run(ir.py_to_ir(lp.body))
+    okk = len(negs) >= 1 and all(("%s[0] == '/'" % b, True) in cfg for _, cfg in negs)
+    ctx.check(okk or bool(carried), R, negs[0][0] if negs else lp, f._qual, "exponent negated under %s[0] == '/'" % b, "the factor after "
+              "a '/' is in the denominator", "the exponent of a block is not negated exactly when the block follows a '/'")
+    ctx.floor(R, 2)
+
+
 def run(ctx):
     py = ctx.py
     rule_samebase(ctx, py)
@@ -222,6 +274,7 @@ def run(ctx):
         i.rule = i.rule.replace("C06.", "C18.")
     ctx.floors = {k: v for k, v in ctx.floors.items() if k.startswith("C18")}
     rule_print(ctx, py)
+    rule_expsign(ctx, py)
     from .. import lints
     lints.run(ctx, "C18", ctx.py, ["units"])
     ctx.assume("NOT decided: the tokeniser's behaviour on arbitrary and malformed text (doubled / dangling separators, "
